@@ -61,9 +61,10 @@ EXC_NAMES = {"Exception", "ValueError", "KeyError", "TypeError", "AttributeError
 
 
 class Interp:
-    def __init__(self, funcs=None, globals_=None, max_steps=200000):
+    def __init__(self, funcs=None, globals_=None, max_steps=200000, modules=None):
         self.funcs = funcs or {}          # methods of `self` that may be called (name -> ast.FunctionDef)
         self.globals = dict(globals_ or {})
+        self.modules = dict(modules or {})
         self.steps, self.max_steps = 0, max_steps
 
     # ------------------------------------------------------------------ calls
@@ -153,6 +154,13 @@ class Interp:
                     raise
         elif isinstance(s, ast.FunctionDef):
             env[s.name] = Closure(s, env)
+        elif isinstance(s, (ast.Import, ast.ImportFrom)):
+            # an import binds scripted stand-ins only: `modules` maps "module" / "module.name" to the object to bind
+            for a in s.names:
+                key = a.name if isinstance(s, ast.Import) else "%s.%s" % (s.module, a.name)
+                if key not in self.modules:
+                    raise Unsupported("line %d: import of %s is not scripted" % (s.lineno, key))
+                env[a.asname or a.name.split(".")[0]] = self.modules[key]
         elif isinstance(s, ast.Pass):
             pass
         elif isinstance(s, ast.Continue):
@@ -391,7 +399,7 @@ class Interp:
             if f.id in env and isinstance(env[f.id], Closure):
                 c = env[f.id]
                 return self.call_def(c.node, args, kwargs, outer=c.env)
-            if f.id in env and callable(env[f.id]) and not isinstance(env[f.id], type):
+            if f.id in env and callable(env[f.id]) and not isinstance(env[f.id], (type, Obj)):
                 return env[f.id](*args, **kwargs)
             if f.id in self.globals and callable(self.globals[f.id]):
                 return self.globals[f.id](*args, **kwargs)
@@ -431,6 +439,13 @@ class Interp:
                 return getattr(recv, f.attr)(*args)
             raise Unsupported("line %d: method %s on %s" % (e.lineno, f.attr, type(recv).__name__))
         raise Unsupported("line %d: call" % e.lineno)
+
+
+def call_closure(interp, c, args):
+    """call an interpreted closure from scripted (Python-side) code, e.g. the replacement function handed to a scripted re.sub"""
+    if not isinstance(c, Closure):
+        raise Unsupported("expected an interpreted function")
+    return interp.call_def(c.node, list(args), outer=c.env)
 
 
 def find_function(path, name, cls=None):
